@@ -200,8 +200,11 @@ def _call3(case, dask_chunks=None, only=None):
                     v = v.compute(scheduler=case['scheduler'])
                 else:
                     v = v.compute()
+            nb = list(res.data.numblocks) if dask_chunks is not None else None
             v = np.asarray(v)
             out[name] = {'dtype': str(v.dtype), 'v': [[float(x) for x in row] for row in v.tolist()]}
+            if nb is not None:
+                out[name]['numblocks'] = nb
             changed = [k for k, (b, a2) in zip(('data', 'coords', 'attrs', 'dims'), zip(snap, _snapshot(r, dask_chunks)))
                        if b != a2]
             if changed:
